@@ -65,8 +65,15 @@ pub struct Script {
     pub fail_accept_call: Vec<usize>,
     /// protocol sets of connections whose accept future completed (the connection "task" owns them)
     pub connections: BTreeMap<usize, (PeerId, ProtocolSet)>,
-    /// protocol sets handed out by `accept()` whose future has not completed yet (moved into the future)
     pub events_emitted: u64,
+    /// SimNet: carrier ends of negotiated connections waiting for the manager's accept/reject decision
+    pub pending_io: BTreeMap<usize, (PeerId, Endpoint, crate::env::pipe::End)>,
+    /// SimNet: accept futures proceed without waiting for an explorer decision
+    pub auto_accept: bool,
+    /// SimNet: connections whose task was started (id → peer)
+    pub started: BTreeMap<usize, PeerId>,
+    /// woken whenever a call is recorded (SimNet's pump)
+    pub call_waker: Option<Waker>,
 }
 
 #[derive(Clone)]
@@ -83,6 +90,10 @@ impl ScriptHandle {
             fail_accept_call: Vec::new(),
             connections: BTreeMap::new(),
             events_emitted: 0,
+            pending_io: BTreeMap::new(),
+            auto_accept: false,
+            started: BTreeMap::new(),
+            call_waker: None,
         })))
     }
 
@@ -136,9 +147,19 @@ impl ScriptHandle {
 
 pub struct ScriptedTransport(ScriptHandle);
 
+impl ScriptedTransport {
+    fn record(&self, call: Call) {
+        let mut s = self.0 .0.lock();
+        s.calls.push(call);
+        if let Some(w) = s.call_waker.take() {
+            w.wake();
+        }
+    }
+}
+
 impl Transport for ScriptedTransport {
     fn dial(&mut self, connection_id: ConnectionId, address: Multiaddr) -> litep2p::Result<()> {
-        self.0 .0.lock().calls.push(Call::Dial { id: connection_id.verif_raw(), address });
+        self.record(Call::Dial { id: connection_id.verif_raw(), address });
         Ok(())
     }
 
@@ -146,14 +167,42 @@ impl Transport for ScriptedTransport {
         let id = connection_id.verif_raw();
         let mut s = self.0 .0.lock();
         s.calls.push(Call::Accept { id });
+        if let Some(w) = s.call_waker.take() {
+            w.wake();
+        }
         if let Some(pos) = s.fail_accept_call.iter().position(|x| *x == id) {
             s.fail_accept_call.remove(pos);
             return Err(litep2p::Error::ConnectionDoesntExist(connection_id));
         }
         let mut pset = s.handle.as_ref().expect("transport installed").protocol_set(connection_id);
+        let me = self.0.clone();
+        if let Some((peer, endpoint, io)) = s.pending_io.remove(&id) {
+            // SimNet connection: what TcpTransport::accept does, with the connection task standing in for
+            // TcpConnection::start
+            let executor = s.handle.as_ref().expect("transport installed").executor();
+            let auto = s.auto_accept;
+            let (tx, rx) = oneshot::channel();
+            if !auto {
+                s.accept_slots.insert(id, tx);
+            }
+            return Ok(Box::pin(async move {
+                if !auto {
+                    match rx.await {
+                        Ok(AcceptDecision::Proceed { .. }) => {}
+                        _ => return Err(litep2p::Error::ConnectionDoesntExist(connection_id)),
+                    }
+                }
+                pset.report_connection_established(peer, endpoint.clone()).await?;
+                me.0.lock().started.insert(id, peer);
+                let conn = crate::env::simnet::SimConnection::new(pset, io, peer, endpoint, me.clone());
+                executor.run_with_name("sim-connection", Box::pin(async move {
+                    let _ = conn.start().await;
+                }));
+                Ok(())
+            }));
+        }
         let (tx, rx) = oneshot::channel();
         s.accept_slots.insert(id, tx);
-        let me = self.0.clone();
         Ok(Box::pin(async move {
             match rx.await {
                 Ok(AcceptDecision::Proceed { peer, endpoint }) => {
@@ -168,32 +217,32 @@ impl Transport for ScriptedTransport {
     }
 
     fn accept_pending(&mut self, connection_id: ConnectionId) -> litep2p::Result<()> {
-        self.0 .0.lock().calls.push(Call::AcceptPending { id: connection_id.verif_raw() });
+        self.record(Call::AcceptPending { id: connection_id.verif_raw() });
         Ok(())
     }
 
     fn reject_pending(&mut self, connection_id: ConnectionId) -> litep2p::Result<()> {
-        self.0 .0.lock().calls.push(Call::RejectPending { id: connection_id.verif_raw() });
+        self.record(Call::RejectPending { id: connection_id.verif_raw() });
         Ok(())
     }
 
     fn reject(&mut self, connection_id: ConnectionId) -> litep2p::Result<()> {
-        self.0 .0.lock().calls.push(Call::Reject { id: connection_id.verif_raw() });
+        self.record(Call::Reject { id: connection_id.verif_raw() });
         Ok(())
     }
 
     fn open(&mut self, connection_id: ConnectionId, addresses: Vec<Multiaddr>) -> litep2p::Result<()> {
-        self.0 .0.lock().calls.push(Call::Open { id: connection_id.verif_raw(), addresses });
+        self.record(Call::Open { id: connection_id.verif_raw(), addresses });
         Ok(())
     }
 
     fn negotiate(&mut self, connection_id: ConnectionId) -> litep2p::Result<()> {
-        self.0 .0.lock().calls.push(Call::Negotiate { id: connection_id.verif_raw() });
+        self.record(Call::Negotiate { id: connection_id.verif_raw() });
         Ok(())
     }
 
     fn cancel(&mut self, connection_id: ConnectionId) {
-        self.0 .0.lock().calls.push(Call::Cancel { id: connection_id.verif_raw() });
+        self.record(Call::Cancel { id: connection_id.verif_raw() });
     }
 
     fn poll_event(&mut self, cx: &mut Context<'_>) -> Poll<Option<TransportEvent>> {
